@@ -49,7 +49,7 @@ class Spec(PropSpec):
     assumptions = [
         "the sampled latency of each op and the shuffle of each matured batch are inputs of the model (forced by min=max latency / read back from the observed completion order); the theorems quantify over all their values",
         "the file system is a parameter of the ring model (Section variables): c18_same_as_sync is proved for every file-system implementation; the correspondence instantiates it with a byte-array model and the real crate is compared with a twin Fs driven through the synchronous std shim",
-        "fault-injection probabilities and O_DIRECT alignment inside exec_read/exec_write are outside the model (off in the generated cases); the capacity check is part of the concrete file-system instance used for the correspondence (in the parametric theorems it belongs to fs_write)",
+        "fault-injection probabilities and O_DIRECT alignment checks inside exec_read/exec_write are outside the model (faults off; O_DIRECT descriptors are used with alignment 1, only their page-cache bypass matters: direct operations always get the configured latency); the capacity check is part of the concrete file-system instance used for the correspondence (in the parametric theorems it belongs to fs_write)",
         "one CompletionQueue handle per ring at a time; AsyncFd wake-ups (tokio Notify / timers) are not modelled, only the readiness snapshot; a consumer parked in readable() that is not woken in the step where the model says the ring is readable is reported by the Sim-mode correspondence",
         "the page-cache LRU exists only as a python mirror that supplies the latency argument of reads (hit 100 ns / miss configured latency); writes and fsyncs always get the configured latency, as the specification says",
     ]
@@ -65,6 +65,7 @@ class Spec(PropSpec):
         cases += [F.gen_cache(ctx.rng) for _ in range(n // 5)]
         cases += [F.gen_capacity(ctx.rng) for _ in range(n // 6)]
         cases += [F.gen_rings(ctx.rng) for _ in range(n // 5)]
+        cases += [F.gen_direct_io(ctx.rng) for _ in range(n // 8)]
         ex = F.exhaustive_small()
         if ctx.tier == "quick":
             ex = ctx.rng.sample(ex, min(len(ex), 120))
